@@ -4,6 +4,7 @@ import (
 	"bytes"
 	"encoding/binary"
 	"errors"
+	"math"
 	"time"
 
 	ps "github.com/prometheus/client_golang/prometheus"
@@ -28,6 +29,7 @@ var errZSizeKey = errors.New("invalid zsize key")
 var errZSetKey = errors.New("invalid zset key")
 var errZScoreKey = errors.New("invalid zscore key")
 var errScoreOverflow = errors.New("zset score overflow")
+var errScoreNaN = errors.New("resulting score is not a number (NaN)")
 var errInvalidAggregate = errors.New("invalid aggregate")
 var errInvalidWeightNum = errors.New("invalid weight number")
 var errInvalidSrcKeyNum = errors.New("invalid src key number")
@@ -532,6 +534,10 @@ func (db *RockDB) ZIncrBy(ts int64, key []byte, delta float64, member []byte) (f
 	}
 
 	score = oldScore + delta
+	if math.IsNaN(score) {
+		// inf + -inf, NaN has no place in the score order
+		return 0, errScoreNaN
+	}
 
 	if v != nil {
 		// so as to update score, we must delete the old one.
